@@ -7,6 +7,7 @@
 //!   nreal nucleo <capacity> <items>
 //!   nreal sort   <len> <threads>
 //!   nreal eventloop <items per round> <rounds>
+//!   nreal kinds <variant>
 mod seq;
 use std::sync::atomic::Ordering as O;
 use std::sync::Arc;
@@ -228,6 +229,105 @@ fn nucleo(capacity: u32, items: u32) {
     println!("nucleo ok: {ticks} ticks, {} notifications", notified.load(O::Relaxed));
 }
 
+/// Every atom kind over every haystack shape: what a worker thread can reach inside the matcher
+/// (ASCII and code-point representations, the scoring matrix at its largest, the greedy fallback
+/// for haystacks the matrix cannot hold, needles longer than the haystack, empty columns), with a
+/// writer still injecting while the first patterns are matched. Miri's UB checks are the oracle;
+/// the assertions are a cheap second one (a match must contain every needle character).
+fn kinds(variant: u32) {
+    nucleo::verif::knobs::set_capacity(Some(1));
+    let mut n: Nucleo<u32> = Nucleo::new(if variant % 2 == 0 { Config::DEFAULT } else { Config::DEFAULT.match_paths() }, Arc::new(|| {}), Some(2), 2);
+    let inj = n.injector();
+    let texts: Vec<String> = vec![
+        "ab".into(),
+        "xaxbx".into(),
+        "AB".into(),
+        " ab ".into(),
+        "".into(),
+        "a".into(),
+        format!("a{}b", "x".repeat(420)),
+        format!("{}ab", "y".repeat(300)),
+        format!("ab{}", "z".repeat(300)),
+        "éab".into(),
+        "äb".into(),
+        "a漢b".into(),
+        format!("é{}a{}b", "x".repeat(200), "x".repeat(380)),
+        format!("{}ab", "ß".repeat(350)),
+        "src/lib/ab.rs".into(),
+        "ÄB".into(),
+        // too long for the scoring matrix: the greedy fallback
+        format!("a{}b", "q".repeat(2300)),
+        format!("{}abcdefghijklmnopqrstuvwxyz{}abcdefghijklmnopqrstuvwxyz", "-".repeat(1000), "/".repeat(1100)),
+        "b".into(),
+    ];
+    let total = texts.len() as u32;
+    let t2 = texts.clone();
+    let w = std::thread::spawn(move || {
+        for (i, t) in t2.iter().enumerate() {
+            if i % 4 == 3 {
+                inj.extend(std::iter::once(i as u32), |_, c| {
+                    c[0] = t.as_str().into();
+                    c[1] = "ab".into();
+                });
+            } else {
+                inj.push(i as u32, |_, c| c[0] = t.as_str().into());
+            }
+        }
+    });
+    let patterns: [(&str, CaseMatching, Normalization); 14] = [
+        ("ab", CaseMatching::Smart, Normalization::Smart),
+        ("'ab", CaseMatching::Ignore, Normalization::Smart),
+        ("^ab", CaseMatching::Smart, Normalization::Smart),
+        ("ab$", CaseMatching::Smart, Normalization::Smart),
+        ("^ab$", CaseMatching::Ignore, Normalization::Never),
+        ("!ab", CaseMatching::Smart, Normalization::Smart),
+        ("AB", CaseMatching::Smart, Normalization::Smart),
+        ("äb", CaseMatching::Respect, Normalization::Never),
+        ("'äb", CaseMatching::Ignore, Normalization::Smart),
+        ("a b", CaseMatching::Smart, Normalization::Smart),
+        ("abcdefghijklmnopqrstuvwxyzabcdefghijklmnopqrstuvwxyz", CaseMatching::Smart, Normalization::Smart),
+        ("b", CaseMatching::Smart, Normalization::Smart),
+        ("'b", CaseMatching::Smart, Normalization::Smart),
+        ("", CaseMatching::Smart, Normalization::Smart),
+    ];
+    let mut joined = false;
+    for (k, (p, case, norm)) in patterns.iter().enumerate() {
+        n.pattern.reparse(0, p, *case, *norm, false);
+        if k == 3 && !joined {
+            w.join_ref();
+            joined = true;
+        }
+        let mut ticks = 0;
+        while n.tick(10).running || (k >= 3 && n.snapshot().item_count() < total) {
+            ticks += 1;
+            assert!(ticks < 50_000, "no quiescence for pattern {p:?}");
+        }
+        let s = n.snapshot();
+        for m in s.matches() {
+            let it = s.get_item(m.idx).expect("match must be initialised");
+            let hay = it.matcher_columns[0].to_string();
+            if !p.starts_with('!') && *norm == Normalization::Never && *case == CaseMatching::Respect {
+                for ch in p.chars().filter(|c| c.is_alphanumeric()) {
+                    assert!(hay.contains(ch), "pattern {p:?} matched {hay:?}");
+                }
+            }
+        }
+        assert!(s.get_item(u32::MAX).is_none());
+        println!("kinds: pattern {p:?}: {} of {} items match", s.matched_item_count(), s.item_count());
+    }
+    println!("kinds ok: variant {variant}");
+}
+trait JoinRef {
+    fn join_ref(&self);
+}
+impl JoinRef for std::thread::JoinHandle<()> {
+    fn join_ref(&self) {
+        while !self.is_finished() {
+            std::thread::yield_now();
+        }
+    }
+}
+
 /// An event loop that only ticks after its own edit or when notified (property C13). A tick that
 /// reported `running` and is not followed by a notification within 5 (virtual) seconds is a lost
 /// wake-up. Rounds keep the worker busy while ticks with timeout 0 race with its completion.
@@ -337,6 +437,7 @@ fn main() {
         Some("sort") => sort(num(2, 4100), num(3, 2) as usize),
         Some("seqdiff") => std::process::exit(seq::main(a.get(2).expect("seqdiff FILE"))),
         Some("eventloop") => eventloop(num(2, 1), num(3, 40)),
+        Some("kinds") => kinds(num(2, 0)),
         _ => {
             eprintln!("usage: nreal boxcar|nucleo|sort ...");
             std::process::exit(2)
